@@ -358,8 +358,89 @@ func runCase(c Case) (res result) {
 		res.counts["logical_cwd_confirmed_by_pwd_L"]++
 	}
 	res.counts["cases_cwd/"+cwdKind]++
+
+	// ---- how the repository is addressed, where the process starts ---------------------
+	// Directories outside the work tree exist in every case (they are snapshotted after every
+	// command: no .gitattributes may appear or change outside the work tree).
+	gitDir := filepath.Join(repo, ".git")
+	outside := map[string]string{
+		startUnrelated: env.Dir("elsewhere/x"),
+		startParent:    env.Root,
+	}
+	for _, sfx := range lookSuffixes {
+		must(os.MkdirAll(repo+sfx, 0o755))
+	}
+	lfsPrefix := []string{"git-lfs"} // program and leading arguments of every command under test
+	lfsShown := "git lfs"
+	if c.Addr != "" {
+		if cwdKind != cwdPhysical {
+			panic("addressing cases use the physical path")
+		}
+		start := wd
+		switch c.Start {
+		case startRoot, startSub:
+		case startUnrelated, startParent:
+			start = outside[c.Start]
+		case startLookalike:
+			start = repo + c.Look
+		default:
+			panic("unknown start " + c.Start)
+		}
+		if (c.Start == startSub) != (c.Dir != "") {
+			panic("addressing case: start " + c.Start + " with invocation directory " + strconv.Quote(c.Dir))
+		}
+		if c.OutPre && start != wd {
+			must(os.WriteFile(filepath.Join(start, ".gitattributes"), []byte("# not part of the repository\n*.txt text\n*.bin -diff\n"), 0o644))
+			res.counts["outside_gitattributes_preexisting"]++
+		}
+		cwdOpt = sbx.RunOpt{Dir: start}
+		where := map[string]string{startRoot: "<W>", startSub: "<W>/" + shq(c.Dir), startUnrelated: "<elsewhere>/x", startParent: "<parent of W>", startLookalike: "<W>" + c.Look}[c.Start]
+		switch c.Addr {
+		case addrEnv:
+			cwdOpt.Env = []string{"GIT_DIR=" + gitDir, "GIT_WORK_TREE=" + repo}
+			setup = "cd " + where + "; export GIT_DIR=<W>/.git GIT_WORK_TREE=<W>"
+		case addrGitOpts:
+			lfsPrefix = []string{"git", "--work-tree=" + repo, "--git-dir=" + gitDir, "lfs"}
+			lfsShown = "git --work-tree=<W> --git-dir=<W>/.git lfs"
+			setup = "cd " + where
+		case addrCoreWT:
+			if r := env.Git(repo, "config", "core.worktree", repo); !r.OK() {
+				panic("git config core.worktree failed: " + r.String())
+			}
+			cwdOpt.Env = []string{"GIT_DIR=" + gitDir}
+			setup = "git -C <W> config core.worktree <W>; cd " + where + "; export GIT_DIR=<W>/.git"
+		default:
+			panic("unknown addressing " + c.Addr)
+		}
+		setup += "   # <W> = work tree (absolute path), created with git init <W>"
+		res.counts["cases_addr/"+c.Addr+"/"+c.Start]++
+	}
+	outsideSnap := func() map[string][]byte { // every .gitattributes below the scratch root that is not in the work tree (or the twin)
+		m := map[string][]byte{}
+		filepath.Walk(env.Root, func(p string, fi os.FileInfo, err error) error {
+			if err != nil {
+				return nil
+			}
+			if fi.IsDir() {
+				if p == repo || (twin != "" && p == twin) || p == filepath.Join(env.Root, "t") {
+					return filepath.SkipDir
+				}
+				return nil
+			}
+			if fi.Name() == ".gitattributes" {
+				b, _ := os.ReadFile(p)
+				rel, _ := filepath.Rel(env.Root, p)
+				m[rel] = b
+			}
+			return nil
+		})
+		return m
+	}
 	// Trigger of a violation without an argument-intrinsic known coordinate
 	unattr := func(a Arg) string {
+		if c.Addr != "" {
+			return addrTrigger(c.Start)
+		}
 		if cwdKind != cwdPhysical {
 			return cwdTrigger(cwdKind)
 		}
@@ -368,6 +449,9 @@ func runCase(c Case) (res result) {
 	frameTrig := "unattributed:frame"
 	if cwdKind != cwdPhysical {
 		frameTrig = cwdTrigger(cwdKind)
+	}
+	if c.Addr != "" {
+		frameTrig = addrTrigger(c.Start)
 	}
 	// Trigger of a violation on the paths of argument ai: the multi-argument coordinate of the
 	// last command that named it, if any (assigned in the step loop)
@@ -556,6 +640,7 @@ func runCase(c Case) (res result) {
 	prevAfter, perr := os.ReadFile(attrFile)
 	prevExists := perr == nil
 	prevSnap := snapAttrFiles(repo)
+	outPrev := outsideSnap()
 	prevT := s0   // table after the previous command
 	errTrig := "" // sticky: an indexed-state command has exited non-zero earlier in this sequence
 	for k, step := range c.Steps {
@@ -624,7 +709,7 @@ func runCase(c Case) (res result) {
 				argv = append(argv, "--not-lockable")
 			}
 		}
-		line := "git lfs " + strings.Join(argv, " ")
+		line := lfsShown + " " + strings.Join(argv, " ")
 		for _, ai := range step.Args {
 			argv = append(argv, c.Args[ai].Text)
 			line += " " + shq(c.Args[ai].Text)
@@ -633,9 +718,12 @@ func runCase(c Case) (res result) {
 			}
 		}
 		transcript = append(transcript, line)
-		out := env.Run(cwdOpt, "git-lfs", argv...)
+		out := env.Run(cwdOpt, lfsPrefix[0], append(append([]string{}, lfsPrefix[1:]...), argv...)...)
 		lastOut = out
 		res.counts["git_lfs_commands"]++
+		if c.Addr != "" {
+			res.counts["git_lfs_commands_addr/"+c.Addr+"/"+c.Start]++
+		}
 		res.counts["git_lfs_commands_cwd/"+cwdKind]++
 		if out.TimedOut {
 			res.inconclusive = "watchdog: " + line
@@ -720,6 +808,17 @@ func runCase(c Case) (res result) {
 				}
 			}
 		}
+
+		// ---- nothing is written outside the work tree ---------------------------------------
+		outNow := outsideSnap()
+		res.counts["outside_snapshots_compared"]++
+		res.counts["outside_gitattributes_files_compared"] += int64(len(outNow))
+		for _, d := range diffSnaps(outPrev, outNow) {
+			report(k, evid.Sig{Symptom: "wrote-outside-worktree", Trigger: unattr(c.Args[step.Args[0]])},
+				fmt.Sprintf("`%s` (step %d): %s outside the work tree %s (%d -> %d bytes)", line, k+1, d.rel, d.kind, len(d.before), len(d.after)),
+				map[string]any{"file_relative_to_scratch_root": d.rel, "before_quoted": strconv.Quote(string(d.before)), "after_quoted": strconv.Quote(string(d.after))})
+		}
+		outPrev = outNow
 
 		// ---- plain `track A` while every argument is tracked already changes no .gitattributes -----
 		// (the identical repetition is judged above; this is `track A` after `track --lockable A`,
@@ -1159,7 +1258,7 @@ func main() {
 		replay(p)
 	}
 	run := evid.New("C19", "exploration")
-	run.Rule = "seeded generator, case = (invocation directory, pre-existing .gitattributes variant, 1-2 arguments, sequence of 1..8 track/--lockable/--not-lockable/untrack/repeat commands). Arguments: patterns from a small glob grammar (literal, *.ext, lit*, lit?ext, [0-9], dir/*.ext, dir/**, **/x, leading /; literals over letters, digits, space, #, quotes, !, punctuation, non-ASCII) or --filename names over printable ASCII, space, TAB, quotes, #, !, * ? [ ], backslash, non-ASCII, optionally below a sub-directory. Universe U per case = paths drawn from the argument's shape plus near misses (space<->TAB, other directory depth, outside the invocation directory, case, suffix/prefix, glob characters expanded, escapes added/removed) plus paths covered by the pre-existing patterns. Oracle = git check-attr -a on U in the repository under test against (a) Git's own matcher on the C-quoted pattern in a twin repository, (b) the single path d/N for --filename, (c) the table before the sequence. Working directory of the git-lfs commands: physical path, or (one case in three) a logical path with PWD set, through a symlink to the repository's parent / the repository / the parent of a nested invocation directory. Appended focus cases (index >= 2^20): {track --lockable A; track A; track A ...}, {track P twice from d while the top-level file already holds the LFS line d/P}, {op1 A; op1 A; op2 A; op2 A}, each under all four ways of reaching the working directory. Appended multi-argument cases (index >= 2^21): 3-4 arguments in the states {tracked with the requested lockable state, tracked with the other one, new}, then track / --lockable / --not-lockable [--filename] over all of them in a drawn order (a known argument first in every second case), repeated, untrack of 2-3 of them, another track form in another order; top level and sub-directories, all four ways of reaching the working directory; per argument the single-argument expectation. A class is (argument modes, feature set or known-trigger coordinate of each argument, kind of invocation directory, pre-existing variant, way the working directory is reached, focus kind); distinct_nontrivial counts classes executed."
+	run.Rule = "seeded generator, case = (invocation directory, pre-existing .gitattributes variant, 1-2 arguments, sequence of 1..8 track/--lockable/--not-lockable/untrack/repeat commands). Arguments: patterns from a small glob grammar (literal, *.ext, lit*, lit?ext, [0-9], dir/*.ext, dir/**, **/x, leading /; literals over letters, digits, space, #, quotes, !, punctuation, non-ASCII) or --filename names over printable ASCII, space, TAB, quotes, #, !, * ? [ ], backslash, non-ASCII, optionally below a sub-directory. Universe U per case = paths drawn from the argument's shape plus near misses (space<->TAB, other directory depth, outside the invocation directory, case, suffix/prefix, glob characters expanded, escapes added/removed) plus paths covered by the pre-existing patterns. Oracle = git check-attr -a on U in the repository under test against (a) Git's own matcher on the C-quoted pattern in a twin repository, (b) the single path d/N for --filename, (c) the table before the sequence. Working directory of the git-lfs commands: physical path, or (one case in three) a logical path with PWD set, through a symlink to the repository's parent / the repository / the parent of a nested invocation directory. Appended focus cases (index >= 2^20): {track --lockable A; track A; track A ...}, {track P twice from d while the top-level file already holds the LFS line d/P}, {op1 A; op1 A; op2 A; op2 A}, each under all four ways of reaching the working directory. Appended addressing cases (index >= 3*2^20): ordinary single/two-argument sequences with the repository named explicitly (GIT_DIR+GIT_WORK_TREE | git --work-tree --git-dir lfs | core.worktree+GIT_DIR) and the process started in {work tree root, sub-directory, unrelated outside directory, outside directory whose path has the work tree's path as a string prefix (-notes, .git, 2), parent}; outside starts are modelled as invocation from the work tree root (what git-lfs does after changing into the work tree); additionally no .gitattributes outside the work tree may appear or change (checked in every case). Appended multi-argument cases (index >= 2^21): 3-4 arguments in the states {tracked with the requested lockable state, tracked with the other one, new}, then track / --lockable / --not-lockable [--filename] over all of them in a drawn order (a known argument first in every second case), repeated, untrack of 2-3 of them, another track form in another order; top level and sub-directories, all four ways of reaching the working directory; per argument the single-argument expectation. A class is (argument modes, feature set or known-trigger coordinate of each argument, kind of invocation directory, pre-existing variant, way the working directory is reached, focus kind); distinct_nontrivial counts classes executed."
 	run.Assumptions = []string{
 		"Git 2.39's check-attr and its reading of C-quoted patterns in .gitattributes are the authority on what a pattern denotes",
 		"--filename N without '/' : only d/N must be tracked, d/**/N may be (gitattributes basename rule); everything else must not change",
@@ -1169,12 +1268,14 @@ func main() {
 		"no .gitattributes below the invocation directory and no .git/info/attributes exist (they would legitimately take precedence)",
 		"paths denoted by two arguments of the same case are not judged",
 		"re-running track with the same argument = a plain `track A` whose arguments are all tracked already (by an earlier exit-0 command of the sequence, or by a pre-existing top-level LFS line d/P confirmed by Git): no .gitattributes may change; a new EMPTY .gitattributes and line-ending-only differences are counted, not judged",
+		"explicit work tree and a start directory outside it: arguments are relative to the work tree root (observed behaviour of the unchanged tree for all 15 combinations; the statement is silent); judged are Git's attribute lookup in the work tree and that nothing is written outside it",
 		"a shell that entered the repository through a directory symlink is modelled by cwd = logical path and PWD = logical path (confirmed per case with pwd -L)",
 	}
 	base := run.N(176, 5000)
 	nfocus := run.N(36, 720) // multiple of 12 = 3 focus kinds x 4 ways of reaching the working directory
 	nmulti := run.N(24, 480) // multiple of 24 = 4 ways of reaching the working directory x 3 main ops x {top level, sub-directory}
-	total := base + nfocus + nmulti
+	naddr := run.N(30, 630)  // multiple of 15 = 3 ways of addressing the repository x 5 places the process starts in
+	total := base + nfocus + nmulti + naddr
 	run.SetMinEvaluations(total / 2)
 
 	cases := make([]Case, total)
@@ -1185,7 +1286,11 @@ func main() {
 			if i < base+nfocus {
 				cases[i] = genCase(run.Seed, focusBase+i-base)
 			} else {
-				cases[i] = genCase(run.Seed, multiBase+i-base-nfocus)
+				if i < base+nfocus+nmulti {
+					cases[i] = genCase(run.Seed, multiBase+i-base-nfocus)
+				} else {
+					cases[i] = genCase(run.Seed, addrBase+i-base-nfocus-nmulti)
+				}
 			}
 		}
 	}
